@@ -239,6 +239,12 @@ pub fn run_node<C: MakeCustom, Q: MakeCustomQuery>(
                     storage.set(&crate::ops::bulk_key(*tag, i), &[*tag, (i >> 8) as u8, i as u8, 1, *salt]);
                 }
             }
+            WriteOp::Hammer { k, n } => {
+                let key = names.key(k);
+                for i in 0..*n {
+                    storage.set(&key, format!("h{}", i).as_bytes());
+                }
+            }
             WriteOp::BulkRemove { tag, n } => {
                 for i in 0..*n {
                     storage.remove(&crate::ops::bulk_key(*tag, i));
